@@ -14,7 +14,7 @@ echo "== $P patch$N (demo goes to $place)"
 git apply --check $S/patch$N.diff || { echo "PATCH DOES NOT APPLY"; exit 1; }
 git apply $S/patch$N.diff
 go build ./... 2>&1 | tail -3; echo "build rc=$?"
-nfail=$(go test -vet=off -count=1 ./... 2>&1 | grep -v "no test files" | grep -vc "^ok"); echo "suite-with-patch non-ok-packages=$nfail"
+nfail=$(go test -vet=off -count=1 $(go list ./... 2>/dev/null | grep -v /SEEDED) 2>&1 | grep -v "no test files" | grep -vc "^ok"); echo "suite-with-patch non-ok-packages=$nfail"
 cp $demo $place/$name
 go test -vet=off -count=1 ./$place/ -tags seeded_c08_demo -run 'Demo|Seed|demo' 2>&1 | tail -4 | cut -c1-200; echo "demo-with-patch rc=${PIPESTATUS[0]}"
 git checkout -q -- .
